@@ -43,8 +43,9 @@ func c05History(r *vhlib.Run, m *vhlib.Model, which string, cfg xwCfg, ops []xwO
 		r.Violate("panic", res.Panic, replay)
 		return
 	}
-	mobs := r.CaseLive(m, "xw", xwArgs(cfg, ops), res.Obs())
-	_ = mobs
+	if !res.SetOffsets { // the Writer model has no operation for assigning the statistics fields
+		r.CaseLive(m, "xw", xwArgs(cfg, ops), res.Obs())
+	}
 	if res.NewErr != "nil" {
 		r.Hist["refused"]++
 		return
@@ -65,7 +66,7 @@ func c05History(r *vhlib.Run, m *vhlib.Model, which string, cfg xwCfg, ops []xwO
 		r.Violate("close-failed", strings.Join(res.PerOp, ","), replay)
 		return
 	}
-	if res.In != int64(len(res.Written)) || res.Out != int64(len(res.Sink)) {
+	if res.In != int64(len(res.Written))+res.InAdj || res.Out != int64(len(res.Sink))+res.OutAdj {
 		r.Violate("writer-offsets", fmt.Sprintf("in=%d/%d out=%d/%d", res.In, len(res.Written), res.Out, len(res.Sink)), replay)
 	}
 	if which == "C05" {
@@ -176,6 +177,33 @@ func runC05(r *vhlib.Run, which string) {
 			maxw = 400
 		}
 		c05History(r, m, which, cfg, randXWOps(rng, 1+rng.Intn(40), maxw), "random")
+	}
+	// the exported statistics fields may be assigned at any time ("safe to set these values to
+	// any arbitrary value"): nothing but the counters themselves may depend on them
+	nso := 150
+	if !r.Quick() {
+		nso = 3000
+	}
+	for i := 0; i < nso; i++ {
+		cfg := randXWConfig(rng)
+		ops := randXWOps(rng, 2+rng.Intn(20), 40)
+		ops = ops[:len(ops)-1]
+		for k := 1 + rng.Intn(3); k > 0; k-- {
+			at := rng.Intn(len(ops) + 1)
+			ops = append(ops[:at:at], append([]xwOp{{Kind: 'o', Mode: []int{0, 0, 1, 77777}[rng.Intn(4)]}}, ops[at:]...)...)
+		}
+		ops = append(ops, xwOp{Kind: 'c'})
+		c05History(r, m, which, cfg, ops, "assigned-counters")
+	}
+	// many chunks in ONE index (IndexSize < 0 or above the default 4096)
+	if which == "C05" {
+		for _, nc := range []int{4095, 4096, 4097, 4500} {
+			if r.Quick() && nc != 4097 {
+				continue
+			}
+			d := vhlib.RandBytes(rng, nc)
+			c05History(r, m, which, xwCfg{Level: -1, ChunkSize: 1, Index: []int64{-1, 5000}[nc%2]}, []xwOp{{Kind: 'w', Data: d}, {Kind: 'c'}}, "many-records-one-index")
+		}
 	}
 	// a destination that fails once and then works again: whenever Close nevertheless
 	// reports success, what the destination holds must be the complete stream
